@@ -75,7 +75,7 @@ def gen_spec(rnd, nrec=None):
         root = {"path": "/abs/root", "isDir": True, "size": None, "lastmod": None, "prev": None, "entries": ents}
     authors = []
     for _ in range(rnd.choice([0, 1, 1, 2])):
-        authors.append({"name": rstr(rnd, True), "role": rstr(rnd, True), "email": rnd.choice([None, "a@b.c", "é@x.yz"]), "phone": rstr(rnd, True)})
+        authors.append({"name": rstr(rnd, True), "role": rstr(rnd, True), "email": rnd.choice([None, "a@b.c", "é@x.yz", "erika@dit-cart", "a handle", "two@at@signs.org"]), "phone": rstr(rnd, True)})
     ign = [".DS_Store", "ascmhl", "ascmhl/"] + list(dict.fromkeys(rnd.sample(STRINGS + ["*.tmp", "tmp/"], rnd.randint(0, 3))))
     return {
         "creator": {"creationdate": iso_utc(rdate(rnd, False), False), "hostname": rstr(rnd), "toolName": "ascmhl", "toolVersion": rstr(rnd), "authors": authors, "location": rstr(rnd, True), "comment": rstr(rnd, True)},
